@@ -59,7 +59,8 @@ def reply_varbinds(op, k):
 
 def near_id(x, variant, ids):
     """an id different from every id in `ids`, chosen to resemble x (catches comparisons that look at part of the id only)"""
-    cands = [(x + 1) & 0x7FFFFFFF, x ^ 0x40000000, x & 0xFFFF, x ^ 0x00010000, (x - 1) & 0x7FFFFFFF, x >> 8, 0]
+    cands = [(x + 1) & 0x7FFFFFFF, x ^ 0x40000000, x & 0xFFFF, x + 2 ** 32, x ^ 0x00010000, (x - 1) & 0x7FFFFFFF, x - 2 ** 32, x >> 8,
+             x + 2 ** 40, 0, x + 2 ** 31, -x if x else 5]
     for i in range(len(cands)):
         c = cands[(variant + i) % len(cands)]
         if c not in ids:
